@@ -11,6 +11,14 @@ returned is re-verified with `viol`.
 import numpy as np
 from scipy.optimize import linprog, minimize
 
+ARR = [None]      # optional callback turning an array into a guarded user array
+
+
+def _ua(a):
+    a = np.array(a, float)
+    return ARR[0](a) if ARR[0] is not None else a
+
+
 POLY = ('box', 'lin', 'eq', 'norm1', 'norminf', 'absbudget')
 SOC = ('norm2', 'sumsqr', 'quad')
 SMOOTH = ('pnorm', 'kl', 'entropy', 'expc')
@@ -110,8 +118,22 @@ def build_rsome(prims, z, rng=None):
         full = (I == list(range(n)))
         zi = z if full else z[I]
         if t == 'box':
-            lo = np.array(prim['lo'], float)
-            hi = np.array(prim['hi'], float)
+            lo = _ua(prim['lo'])
+            hi = _ua(prim['hi'])
+            fixed = np.where(np.asarray(lo) == np.asarray(hi))[0]
+            if len(fixed) and len(fixed) < len(I) and rng is not None and rng.random() < 0.6:
+                # fixed components written as equalities (or a zero-radius ball), the rest as bounds
+                free = [k for k in range(len(I)) if k not in set(fixed.tolist())]
+                for k in fixed:
+                    zk = zi[int(k)]
+                    if rng.random() < 0.5:
+                        out.append(zk == float(np.asarray(lo)[k]))
+                    else:
+                        out.append(abs(zk - float(np.asarray(lo)[k])) <= 0)
+                zf = zi[free]
+                out.append(zf >= np.asarray(lo)[free])
+                out.append(zf <= np.asarray(hi)[free])
+                continue
             if coin():
                 out.append(zi >= lo)
                 out.append(zi <= hi)
@@ -119,20 +141,20 @@ def build_rsome(prims, z, rng=None):
                 out.append(-zi <= -lo)
                 out.append(hi >= zi)
         elif t == 'lin':
-            A = np.array(prim['A'], float)
-            b = np.array(prim['b'], float)
+            A = _ua(prim['A'])
+            b = _ua(prim['b'])
             if coin():
                 out.append(A @ z <= b)
             else:
                 for k in range(A.shape[0]):
                     out.append(A[k] @ z <= b[k])
         elif t == 'eq':
-            F = np.array(prim['F'], float)
-            g = np.array(prim['g'], float)
+            F = _ua(prim['F'])
+            g = _ua(prim['g'])
             out.append(F @ z == g)
         elif t in ('norm1', 'norminf', 'norm2', 'pnorm', 'sumsqr'):
-            D = np.array(prim['D'], float)
-            c = np.array(prim['c'], float)
+            D = _ua(prim['D'])
+            c = _ua(prim['c'])
             arg = D * (zi - c) if coin() else (D * zi - D * c)
             if t == 'norm1':
                 out.append(rso.norm(arg, 1) <= prim['r'])
@@ -156,18 +178,18 @@ def build_rsome(prims, z, rng=None):
                 else:
                     out.append(rso.pnorm(arg, pp) <= prim['r'])
         elif t == 'quad':
-            c = np.array(prim['c'], float)
-            out.append(rso.quad(zi - c, np.array(prim['Q'], float)) <= prim['r'])
+            c = _ua(prim['c'])
+            out.append(rso.quad(zi - c, _ua(prim['Q'])) <= prim['r'])
         elif t == 'absbudget':
             U = list(prim['uidx'])
-            c = np.array(prim['c'], float)
+            c = _ua(prim['c'])
             u = z[U]
             out.append(abs(zi - c) <= u)
             out.append(u.sum() <= prim['gamma'])
             if prim.get('w') is not None:
-                out.append(u <= np.array(prim['w'], float))
+                out.append(u <= _ua(prim['w']))
         elif t == 'kl':
-            q = np.array(prim['q'], float)
+            q = _ua(prim['q'])
             out.append(zi >= 0)
             out.append(zi.sum() == 1)
             out.append(rso.kldiv(zi, q, prim['r']))
@@ -460,7 +482,7 @@ def maximize(prims, a, n, z0=None):
 
 # ------------------------------------------------------------------ random sets
 
-def random_set(rng, nz, kinds, allow_aux=True, center=None, scale=1.0):
+def random_set(rng, nz, kinds, allow_aux=True, center=None, scale=1.0, allow_fixed=True):
     """Random non-empty bounded set around `center` (strictly inside).  Returns
     (prims, n_total, z_center_full).  `kinds`: allowed primitive names."""
     c = np.round(rng.uniform(-1, 1, nz), 2) if center is None else np.array(center, float)
@@ -477,6 +499,12 @@ def random_set(rng, nz, kinds, allow_aux=True, center=None, scale=1.0):
     if kind == 'box':
         lo = np.round(c - rng.uniform(0.2, 1.5, nz) * scale, 2)
         hi = np.round(c + rng.uniform(0.2, 1.5, nz) * scale, 2)
+        if allow_fixed and rng.random() < 0.35:
+            i = int(rng.integers(nz))          # a component fixed at a non-zero value
+            if c[i] == 0:
+                c[i] = 0.5
+            lo[i] = hi[i] = c[i]
+            zc = list(c)
         prims.append({'t': 'box', 'lo': lo.tolist(), 'hi': hi.tolist()})
         bounded = True
     elif kind in ('norm1', 'norminf', 'norm2'):
@@ -540,9 +568,14 @@ def random_set(rng, nz, kinds, allow_aux=True, center=None, scale=1.0):
         if kind in ('kl', 'entropy'):
             e = 'halfspace'
         if e == 'box':
-            prims.append({'t': 'box', 'idx': list(range(nz)),
-                          'lo': np.round(cz - rng.uniform(0.3, 1.2, nz) * scale, 2).tolist(),
-                          'hi': np.round(cz + rng.uniform(0.3, 1.2, nz) * scale, 2).tolist()})
+            blo = np.round(cz - rng.uniform(0.3, 1.2, nz) * scale, 2)
+            bhi = np.round(cz + rng.uniform(0.3, 1.2, nz) * scale, 2)
+            if allow_fixed and nz >= 2 and rng.random() < 0.2 and kind not in ('kl', 'entropy'):
+                i = int(rng.integers(nz))
+                if cz[i] != 0:
+                    blo[i] = bhi[i] = cz[i]
+            prims.append({'t': 'box', 'idx': list(range(nz)), 'lo': blo.tolist(),
+                          'hi': bhi.tolist()})
         elif e == 'halfspace':
             A = np.zeros((1, n))
             A[0, :nz] = np.round(rng.normal(size=nz), 2)
